@@ -1321,6 +1321,10 @@ M('C05', 'original defect: svd(full_matrices=True) leaves sectors without a bloc
   "        for qi in range(a.legs[1].block_number):\n            if qi not in qi_R:\n                qi_R = np.append(qi_R, qi)\n                VH_data.append(np.eye(a.legs[1].get_block_sizes()[qi], dtype=a.dtype))\n", "",
   'FACT-full-unitary')
 
+M('C01', 'original defect: A[inds] = B compares the bunched leg of the permuted B block by block', NPC,
+  "                other = Array.from_ndarray(other.to_ndarray(), legs, other.dtype, other.qtotal, labels=other._labels)\n", "                pass\n",
+  'BLOCKS-permute-compare')
+
 # ---------------------------------------------------------------- C16 / C19
 M('C16', 'GMRES restart: relative residual norm used for normalisation (round-3 seed b)', KRY,
   """        self.total_error.append([npc.norm(self.rs[-1]) / self.b_norm])
